@@ -51,7 +51,7 @@ def run_shard(spec, acc):
                gen.OPENERS['stab_paths'], gen.OPENERS['stab_paths'],
                gen.OPENERS['manual_on_middle_w'],
                gen.OPENERS['manual_on_middle_w'],
-               gen.OPENERS['batch_merge']]
+               gen.OPENERS['batch_merge'], gen.OPENERS['queue_conflict']]
     if spec['tier'] == 'quick':
         n_hist, jobs, cap = 9, 12, 600
     else:
